@@ -110,6 +110,7 @@ type Exec struct {
 	rootBinders map[string]Val
 	inQuant   int
 	loopVisited map[int]string
+	loopIters   map[int]string
 	cloCells  map[string]*Closure
 	wlog      []writeRec
 	symAt     map[string]int
@@ -723,9 +724,14 @@ func (e *Exec) havocComp(s *State, name string) {
 	}
 	e.wlog = append(e.wlog, writeRec{name, ""})
 	sort := e.compSort[name]
+	old, hadOld := s.comps[name]
 	sym := e.fresh(name+"!h", sort)
 	s.comps[name] = sym
 	e.initCompFacts(name, sort, sym)
+	if name == "CLOSED" && hadOld {
+		// a closed channel stays closed: the ghost set only grows
+		e.assumeKeyed(sym, fmt.Sprintf("(forall ((rq Int)) (! (=> (select %s rq) (select %s rq)) :pattern ((select %s rq))))", old, sym, sym), "closed channels stay closed")
+	}
 }
 
 const allocComp = "ALLOC"
@@ -944,6 +950,7 @@ type rangeInfo struct {
 	x     Val
 	isMap bool
 	dom0  Term // key set of the map when the iteration started
+	len0  Term // len of the map when the iteration started
 }
 
 type loopInfo struct {
